@@ -125,7 +125,7 @@ def hygiene_hits():
 	return hits
 
 
-def build_and_audit(prop, extra_targets=(), driver=None):
+def build_and_audit(prop, extra_targets=(), driver=None, extra_drivers=()):
 	"""Builds the property file and driver, audits axioms.
 
 	Returns dict(ok, obligations, discharged, failed (names or log excerpt), log, driver_ok)."""
@@ -134,7 +134,7 @@ def build_and_audit(prop, extra_targets=(), driver=None):
 	result['obligations'] = len(theorems)
 	result['theorems'] = theorems
 
-	code, log = lake(['build', f'driver_{(driver or prop).lower()}'])
+	code, log = lake(['build', f'driver_{(driver or prop).lower()}'] + [f'driver_{name}' for name in extra_drivers])
 	result['driver_ok'] = 0 == code
 	if 0 != code:
 		result['log'] += log[-4000:]
